@@ -28,6 +28,9 @@ PROPS = {
     'C04': {'suites': hub_suite(), 'trusted_base': HUB_TB, 'rule': HUB_RULE,
             'assumptions': ['chain ids are prefix-free (true of ethereum/minter/bsc/hub; checked by Example C04_hypothesis_satisfiable)',
                             'uint64 counters do not wrap (2^64 sends are unreachable)']},
+    'C11': {'suites': hub_suite(), 'trusted_base': HUB_TB, 'rule': HUB_RULE,
+            'assumptions': ['sdk.Dec.Mul rounding is modelled (round half to even); rate*(value*10^18) is exact, so the commission is a floor',
+                            '(chain, external id) identifies one token info (ConvertToExternalValue looks the token up again by external id)']},
     'C12': {'suites': hub_suite(hostile=False), 'trusted_base': HUB_TB, 'rule': HUB_RULE,
             'assumptions': ['chain ids are prefix-free', 'expiry is decided on whole-millisecond block times (the harness only uses such times)']},
     'C13': {'suites': hub_suite(hostile=False), 'trusted_base': HUB_TB, 'rule': HUB_RULE,
